@@ -8,6 +8,9 @@ for f in sorted(os.listdir(os.path.join(ROOT, 'props'))):
         reg[f[:-5]] = json.load(open(os.path.join(ROOT, 'props', f)))
 na = json.load(open(os.path.join(ROOT, 'not_applicable.json')))
 hooks = json.load(open(os.path.join(ROOT, 'hooks.json')))
+# only properties whose check the coordinator has seen pass on the unchanged tree are claimed
+allow = set(json.load(open(os.path.join(ROOT, 'claimed.json'))))
+reg = {k: v for k, v in reg.items() if k in allow}
 checks = []
 for pid in sorted(reg):
     e = reg[pid]
